@@ -57,6 +57,10 @@ Reason(e, ref) ==
                THEN "ok" ELSE "stopped-run-not-distinct-members")
          ELSE IF ~e.pre \/ Len(e.ids) > e.n \/ e.ids # SubSeq(ref, e.n - Len(e.ids) + 1, e.n) THEN "stopped-run-not-a-prefix"
          ELSE "ok"
+    [] e.op = "runaway" ->        \* the first items of a run that was cut off at the driver's item cap
+         IF e.panic THEN "panic"
+         ELSE IF e.wf /\ \E i \in 1..(Len(e.ids) - 1) : e.ids[i] = 0 THEN "error-item-not-last"
+         ELSE "ok"
     [] OTHER -> "CERT-unknown-op"
 
 TInit == l = 1 /\ bad = <<>> /\ sid = 0 - 1 /\ base = <<>> /\ fsid = 0 - 1
